@@ -31,6 +31,7 @@ Record st := {
   active : bool;                 (* Logger.status <> STOPPED *)
   flushStamp : Z; cycleStamp : Z;
   next : nat; flushed : nat; dropped : nat;
+  since : nat;                   (* ghost: id of the first record of the current main file *)
   events : list (Z * Z);
   fuel : option nat; crashed : bool; fault : bool
 }.
@@ -39,19 +40,24 @@ Record st := {
 Definition set_disk (s : st) (fs : list (option content)) (hb : option content) : st :=
   {| now := now s; files := fs; hbuf := hb; first := first s; active := active s;
      flushStamp := flushStamp s; cycleStamp := cycleStamp s; next := next s; flushed := flushed s;
-     dropped := dropped s; events := events s; fuel := fuel s; crashed := crashed s; fault := fault s |}.
+     dropped := dropped s; since := since s; events := events s; fuel := fuel s; crashed := crashed s; fault := fault s |}.
 Definition set_ghost (s : st) (n f d : nat) (ev : list (Z * Z)) : st :=
   {| now := now s; files := files s; hbuf := hbuf s; first := first s; active := active s;
      flushStamp := flushStamp s; cycleStamp := cycleStamp s; next := n; flushed := f;
-     dropped := d; events := ev; fuel := fuel s; crashed := crashed s; fault := fault s |}.
+     dropped := d; since := since s; events := ev; fuel := fuel s; crashed := crashed s; fault := fault s |}.
 Definition set_vars (s : st) (t : Z) (fi a : bool) (fs cs : Z) : st :=
   {| now := t; files := files s; hbuf := hbuf s; first := fi; active := a;
      flushStamp := fs; cycleStamp := cs; next := next s; flushed := flushed s;
-     dropped := dropped s; events := events s; fuel := fuel s; crashed := crashed s; fault := fault s |}.
+     dropped := dropped s; since := since s; events := events s; fuel := fuel s; crashed := crashed s; fault := fault s |}.
 Definition set_fuel (s : st) (fu : option nat) (cr fa : bool) : st :=
   {| now := now s; files := files s; hbuf := hbuf s; first := first s; active := active s;
      flushStamp := flushStamp s; cycleStamp := cycleStamp s; next := next s; flushed := flushed s;
-     dropped := dropped s; events := events s; fuel := fu; crashed := cr; fault := fa |}.
+     dropped := dropped s; since := since s; events := events s; fuel := fu; crashed := cr; fault := fa |}.
+
+Definition set_since (s : st) (n : nat) : st :=
+  {| now := now s; files := files s; hbuf := hbuf s; first := first s; active := active s;
+     flushStamp := flushStamp s; cycleStamp := cycleStamp s; next := next s; flushed := flushed s;
+     dropped := dropped s; since := n; events := events s; fuel := fuel s; crashed := crashed s; fault := fault s |}.
 
 (* ---- content ---- *)
 Definition ids (c : content) : list nat :=
@@ -110,10 +116,12 @@ Definition f_close (s : st) : st :=
 Definition f_open_append (s : st) : st :=
   match hbuf s with
   | Some _ => s
-  | None => set_disk s (set_main (files s) (Some (ocontent (mainf s)))) (Some [])
+  | None => set_since (set_disk s (set_main (files s) (Some (ocontent (mainf s)))) (Some []))
+                      (match mainf s with None => next s | Some _ => since s end)
   end.
 (* ocfn(path, 'w+') after the renames: O_EXCL create, or truncate an existing file *)
-Definition f_create_trunc (s : st) : st := set_disk s (set_main (files s) (Some [])) (Some []).
+Definition f_create_trunc (s : st) : st :=
+  set_since (set_disk s (set_main (files s) (Some [])) (Some [])) (next s).
 (* ocfn(paths[k], 'r'); close: creates a missing rotate copy, never truncates.
    j = position in the oldest-first list *)
 Fixpoint touch (fs : list (option content)) (j : nat) : list (option content) :=
@@ -175,9 +183,10 @@ Definition log_cycle (c : cfg) (size : Z) (s : st) : st :=
       let s2 := prim f_close (prim f_flush s1) in
       if crashed s2 then s2 else
       let '(s3, fs) := chain_files (files s2) (set_fuel s2 (fuel s2) (crashed s2) false) in
-      let s4 := set_ghost (set_disk s3 fs (hbuf s3)) (next s3) (flushed s3)
+      let s4 := set_since (set_ghost (set_disk s3 fs (hbuf s3)) (next s3) (flushed s3)
                           (dropped s3 + (length (view (files s2)) - length (view fs)))%nat
-                          ((csize (hsz c) (ocontent (mainf s1)), size) :: events s3) in
+                          ((csize (hsz c) (ocontent (mainf s1)), size) :: events s3))
+                          (match last fs None with None => next s3 | Some _ => since s3 end) in
       if crashed s4 then s4 else
       if fault s4 then log_reopen O s4 else
       log_reopen O (prim f_write_hdr (prim f_create_trunc s4))
@@ -227,7 +236,8 @@ Definition step (c : cfg) (s : st) (o : op) : st :=
 (* a fresh Logger process on a disk d0 that already holds the records dropped0 .. next0-1 *)
 Definition init (c : cfg) (t0 : Z) (d0 : list (option content)) (n0 dr0 : nat) (fu : option nat) : st :=
   {| now := t0; files := d0; hbuf := None; first := true; active := false;
-     flushStamp := 0; cycleStamp := 0; next := n0; flushed := n0; dropped := dr0; events := [];
+     flushStamp := 0; cycleStamp := 0; next := n0; flushed := n0; dropped := dr0;
+     since := (n0 - length (oids (last d0 None)))%nat; events := [];
      fuel := fu; crashed := false; fault := false |}.
 
 Definition empty_disk (c : cfg) : list (option content) := repeat None (S (keep c)).
